@@ -194,6 +194,9 @@ func newCatalog() *catalog {
 		Body: mustJSON(idxT{2, mtOCIIndex, []desc{c.dp("M1"), c.dp("M2")}})})
 	c.add(&node{Name: "N1", Manifest: true, MT: mtOCIIndex, Kids: []string{"I1", "M3"},
 		Body: mustJSON(idxT{2, mtOCIIndex, []desc{c.dp("I1"), c.dp("M3")}})})
+	// X1: an index that lists a layer blob directly next to an image (as build caches do)
+	c.add(&node{Name: "X1", Manifest: true, MT: mtOCIIndex, Kids: []string{"M4", "L3"},
+		Body: mustJSON(idxT{2, mtOCIIndex, []desc{c.dp("M4"), c.d("L3")}})})
 	// A1: artifact packaged as an OCI image manifest (artifactType, empty config) with a subject
 	sub := c.d("M1")
 	c.add(&node{Name: "A1", Manifest: true, MT: mtOCIManifest, Kids: []string{"E1", "B1"},
@@ -212,7 +215,7 @@ func newCatalog() *catalog {
 
 // roots are the nodes an ImageCopy may start from; each is tagged at the source with its lower
 // cased name.
-var roots = []string{"M1", "M2", "M3", "M4", "S1", "I1", "N1", "A1", "A2"}
+var roots = []string{"M1", "M2", "M3", "M4", "S1", "I1", "N1", "X1", "A1", "A2"}
 
 func (c *catalog) fallbackTag() string {
 	return strings.Replace(c.nodes["M1"].Digest, ":", "-", 1)
